@@ -442,10 +442,16 @@ func runMain(args []string) {
 
 	var mu sync.Mutex
 	cond := sync.NewCond(&mu)
-	var queue []workItem
+	// one DFS stack per harness, served round robin so that no harness starves
+	queues := map[string][]interp.WorkItem{}
+	var order []string
+	qlen := 0
+	rr := 0
 	for _, e := range es {
-		queue = append(queue, workItem{e.full, interp.WorkItem{}})
+		queues[e.full] = []interp.WorkItem{{}}
+		order = append(order, e.full)
 		accs[e.full].pending++
+		qlen++
 	}
 	busy := 0
 	stop := false
@@ -477,25 +483,35 @@ func runMain(args []string) {
 			}()
 			for {
 				mu.Lock()
-				for len(queue) == 0 && busy > 0 && !stop {
+				for qlen == 0 && busy > 0 && !stop {
 					cond.Wait()
 				}
-				if stop || (len(queue) == 0 && busy == 0) {
+				if stop || (qlen == 0 && busy == 0) {
 					mu.Unlock()
 					cond.Broadcast()
 					return
 				}
-				// take up to a few items of the same harness from the end (DFS order)
-				it := queue[len(queue)-1]
-				queue = queue[:len(queue)-1]
+				// next non-empty harness in rotation; a few items from the end of its stack (DFS order)
+				var it workItem
+				for k := 0; k < len(order); k++ {
+					name := order[(rr+k)%len(order)]
+					if q := queues[name]; len(q) > 0 {
+						it = workItem{name, q[len(q)-1]}
+						queues[name] = q[:len(q)-1]
+						qlen--
+						rr = (rr + k + 1) % len(order)
+						break
+					}
+				}
 				items := []interp.WorkItem{it.item}
-				for len(items) < 4 && len(queue) > nw && queue[len(queue)-1].entry == it.entry {
-					items = append(items, queue[len(queue)-1].item)
-					queue = queue[:len(queue)-1]
+				for q := queues[it.entry]; len(items) < 4 && len(q) > nw; q = queues[it.entry] {
+					items = append(items, q[len(q)-1])
+					queues[it.entry] = q[:len(q)-1]
+					qlen--
 				}
 				busy++
 				budget := 400
-				if len(queue) > 4*nw {
+				if qlen > 4*nw {
 					budget = 3000
 				}
 				mu.Unlock()
@@ -503,7 +519,18 @@ func runMain(args []string) {
 				err := w.in.Encode(request{Entry: it.entry, Items: items, BudgetMs: budget})
 				var resp response
 				if err == nil {
+					// watchdog: a worker that does not answer is killed (its items are lost: inconclusive)
+					done := make(chan struct{})
+					deadline := time.Duration(budget)*time.Millisecond + 20*time.Duration(lf.timeoutMs)*time.Millisecond + 180*time.Second
+					go func(p *os.Process) {
+						select {
+						case <-done:
+						case <-time.After(deadline):
+							p.Kill()
+						}
+					}(w.cmd.Process)
 					err = w.out.Decode(&resp)
+					close(done)
 				}
 				mu.Lock()
 				busy--
@@ -531,7 +558,8 @@ func runMain(args []string) {
 				}
 				acc.merge(resp.Result)
 				for _, lo := range resp.Result.Leftover {
-					queue = append(queue, workItem{it.entry, lo})
+					queues[it.entry] = append(queues[it.entry], lo)
+					qlen++
 					acc.pending++
 				}
 				mu.Unlock()
@@ -551,9 +579,6 @@ func runMain(args []string) {
 	}
 	wg.Wait()
 	mu.Lock()
-	for _, it := range queue {
-		_ = it
-	}
 	for _, a := range out.Harnesses {
 		a.Exhausted = a.pending == 0 && !out.TimedOut
 		if a.pending != 0 {
